@@ -76,6 +76,8 @@ static const char *g_user_names[16];
 static char g_params_used[2048];
 int vp_tracing;
 static int g_single;
+static uint16_t g_replay_seq[VP_MAXLEN];
+static int g_replay_n;
 
 static double now_s(void)
 {
@@ -554,10 +556,10 @@ int vp_main(int argc, char **argv, const struct vp_harness *h)
 			char *kv = strdup(argv[++i]), *eq = strchr(kv, '=');
 			if (!eq) usage();
 			*eq = 0; g_setk[g_nset] = kv; g_setv[g_nset] = atol(eq + 1); g_nset++;
-		} else if (!strcmp(argv[i], "--known") && i + 3 < argc) {
+		} else if (!strcmp(argv[i], "--known") && i + 1 < argc) {
+			/* the front end has already replayed the witness of this finding and seen it fail */
 			snprintf(g_known[g_nknown].trig, 64, "%s", argv[++i]);
-			snprintf(g_known[g_nknown].file, 512, "%s", argv[++i]);
-			snprintf(g_known[g_nknown].what, 512, "%s", argv[++i]);
+			g_known[g_nknown].active = 1;
 			g_nknown++;
 		} else usage();
 	}
@@ -568,6 +570,12 @@ int vp_main(int argc, char **argv, const struct vp_harness *h)
 	setenv("UBSAN_OPTIONS", "halt_on_error=1:exitcode=88:print_stacktrace=1", 0);
 	setenv("TZ", "UTC", 1);
 
+	if (g_replay) {
+		char params[1024];
+		g_replay_n = parse_choices(g_replay_file, g_replay_seq, params, sizeof params);
+		if (g_replay_n < 0) { fprintf(stderr, "vp: bad replay file\n"); return 2; }
+		apply_params(params);
+	}
 	if (H->init) H->init();
 	S = mmap(NULL, sizeof *S, PROT_READ | PROT_WRITE, MAP_SHARED | MAP_ANONYMOUS, -1, 0);
 	if (S == MAP_FAILED) { perror("mmap"); return 2; }
@@ -582,10 +590,8 @@ int vp_main(int argc, char **argv, const struct vp_harness *h)
 	snprintf(g_errfile, sizeof g_errfile, "/tmp/vp-%s-%d-main.err", H->name, (int)getpid());
 
 	if (g_replay) {
-		char params[1024];
-		int n = parse_choices(g_replay_file, seq, params, sizeof params), r;
-		if (n < 0) { fprintf(stderr, "vp: bad replay file\n"); return 2; }
-		apply_params(params);
+		int n = g_replay_n, r;
+		memcpy(seq, g_replay_seq, sizeof seq);
 		if (H->private_shm) setup_private_shm();
 		if (H->setup) H->setup();
 		r = run_single(seq, n, 1, crash, sizeof crash);
@@ -604,28 +610,11 @@ int vp_main(int argc, char **argv, const struct vp_harness *h)
 		if (pid == 0) {
 			if (H->private_shm) setup_private_shm();
 			if (H->setup) H->setup();
-			/* known findings: witness must still fail to activate its trigger */
-			for (i = 0; i < g_nknown; i++) {
-				char params[1024];
-				int n = parse_choices(g_known[i].file, seq, params, sizeof params);
-				int a = 0;
-				if (n >= 0) {
-					int r1 = run_single(seq, n, 0, crash, sizeof crash);
-					int r2 = run_single(seq, n, 0, crash, sizeof crash);
-					a = (r1 == 1 && r2 == 1);
-				}
-				S->known_active[i] = a;
-			}
 			expand_items();
 			unlink(g_errfile);
 			_exit(0);
 		}
 		{ int st; waitpid(pid, &st, 0); if (!WIFEXITED(st) || WEXITSTATUS(st)) { fprintf(stderr, "vp: coordinator helper failed\n"); return 2; } }
-		for (i = 0; i < g_nknown; i++) {
-			g_known[i].active = S->known_active[i];
-			if (g_known[i].active)
-				printf("KNOWN-FINDING: property=%s %s\n", H->property, g_known[i].what);
-		}
 	}
 	fflush(NULL);
 
